@@ -60,7 +60,7 @@ theorem count_map_natCast {β : Type} (α : Assign) (l : List β) (f : β → Na
 
 /-! ### counting on duplicate-free lists -/
 
-theorem countP_le_one_iff {β : Type} (l : List β) (p : β → Bool) (hl : l.Nodup) :
+theorem countP_le_one_iff_nodup {β : Type} (l : List β) (p : β → Bool) (hl : l.Nodup) :
     l.countP p ≤ 1 ↔ ∀ a ∈ l, ∀ b ∈ l, p a = true → p b = true → a = b := by
   induction l with
   | nil => simp
@@ -106,7 +106,7 @@ theorem countP_pos_iff {β : Type} (l : List β) (p : β → Bool) :
 
 theorem countP_eq_one_iff {β : Type} (l : List β) (p : β → Bool) (hl : l.Nodup) :
     l.countP p = 1 ↔ (∃ a ∈ l, p a = true) ∧ ∀ a ∈ l, ∀ b ∈ l, p a = true → p b = true → a = b := by
-  rw [← countP_le_one_iff l p hl, ← countP_pos_iff]; omega
+  rw [← countP_le_one_iff_nodup l p hl, ← countP_pos_iff]; omega
 
 /-! ### `pairs` = `itertools.combinations(·, 2)` -/
 
